@@ -38,6 +38,21 @@ Proof. exact @consume_is_fold. Qed.
 Example C07_ex_inv : Inv {| s_txs := [([65], 12); ([66; 67], 9001)]; s_max := 2 |}.
 Proof. split; [repeat constructor; cbn; intuition discriminate|cbn; lia]. Qed.
 
+(* begin records the receipt number of the LAST status information that carried one (any number of replies, no abort) *)
+Theorem C07_begin_records_last_receipt : forall ixa ixs, ixs <> ixa -> forall its acc,
+  (forall i v, In (i, v) its -> i <> ixa) ->
+  run_handler (h_begin ixa ixs) f_begin acc its =
+  f_begin (fold_left (fun a iv => if fst iv =? ixs then match receipt_of (snd iv) with Some rn => Some rn | None => a end else a) its acc).
+Proof. exact begin_records_last_receipt. Qed.
+
+(* a reservation whose replies never carried a receipt number is refused as incomplete (and by C07_begin_effect the map is untouched) *)
+Theorem C07_begin_without_receipt_is_incomplete : forall ixa ixs, ixs <> ixa -> forall its,
+  (forall i v, In (i, v) its -> i <> ixa) -> (forall i v, In (i, v) its -> i = ixs -> receipt_of v = None) ->
+  run_handler (h_begin ixa ixs) f_begin None its = RErr EIncomplete.
+Proof. exact begin_without_receipt_is_incomplete. Qed.
+
+Print Assumptions C07_begin_records_last_receipt.
+Print Assumptions C07_begin_without_receipt_is_incomplete.
 Print Assumptions C07_map_invariant.
 Print Assumptions C07_begin_refused_at_maximum.
 Print Assumptions C07_begin_refused_when_open.
